@@ -295,3 +295,19 @@ void h_epoll_wait(void)
 	}
 	CANARY();
 }
+
+/* ---- synchronous probe (iv_fd_register_try): the kernel may refuse the descriptor -------- */
+void h_notify_fd_sync_refused(void)
+{
+	int r;
+
+	v_build();
+	__CPROVER_assume(verif_in.rb == 0 && verif_in.wb != 0 && verif_in.notify_shape == 0);
+	k_fdnum[0] = -7;	/* the kernel does not accept this descriptor (EBADF / EPERM: regular file, closed fd) */
+	r = iv_fd_epoll_notify_fd_sync(&v_state, &v_fd);
+	__CPROVER_assert(r < 0, "[C07,C15] a descriptor the kernel refuses makes the synchronous registration fail (after retrying EINTR)");
+	__CPROVER_assert(v_fd.registered_bands == 0 && UNLINKED(&v_fd), "[C07,C01] nothing is recorded as registered with the kernel and the fd is on no pending list, so the failed try can be rolled back completely");
+	iv_fd_epoll_unregister_fd(&v_state, &v_fd);
+	__CPROVER_assert(k_ctl_calls == verif_in.eintr + 1, "[C07] the roll-back issues no further kernel call");
+	CANARY();
+}
